@@ -105,7 +105,7 @@ func genC07(t *rapid.T) C07Case {
 			}
 			u = UniverseFor(t, tree, false)
 		}
-		c.Progs = append(c.Progs, C07Prog{U: *u, Tree: tree, Mask: rapid.IntRange(0, 15).Draw(t, "mask"), Events: pickW(t, "events", 3, 1, 1), Src: m.Render(tree)})
+		c.Progs = append(c.Progs, C07Prog{U: *u, Tree: tree, Mask: rapid.IntRange(0, 15).Draw(t, "mask"), Events: pickW(t, "events", 6, 2, 2, 1), Src: m.Render(tree)})
 	}
 	c.Seq = genC07Calls(t, np, 10, 60)
 	ng := rapid.IntRange(2, depthMax(8, 16)).Draw(t, "goroutines")
